@@ -1011,18 +1011,18 @@ ConnOwner(s, conn) ==
 
 TryAcceptable(s, a) ==
   LET o == ConnOwner(s, a.conn) IN
-  /\ a.order = "ORDER_ORDERED" /\ a.pport = "provider" /\ a.cport = "consumer" /\ a.version = "1" /\ a.hops = 1
+  /\ a.order = "ORDER_ORDERED" /\ a.cport = "consumer" /\ a.version = "1" /\ a.hops = 1
   /\ o # "none" /\ s.cons[o].client = s.conns[a.conn] /\ s.cons[o].chan = ""
 
 C17_Try == [][
-  (PStep /\ Txn(Ev, "ChanOpenTry") /\ Has(Ev.args, "order")) =>
+  (PStep /\ Txn(Ev, "ChanOpenTry") /\ Has(Ev.args, "order") /\ Ev.args.pport = "provider") =>
     /\ OkTx(Ev) => TryAcceptable(p, Ev.args)
     /\ (Has(Ev.args, "coreOk") /\ TryAcceptable(p, Ev.args)) => OkTx(Ev)
     /\ p'.cons = p.cons   \* a Try never binds anything
   ]_vars
 
 C17_Confirm == [][
-  (PStep /\ Txn(Ev, "ChanOpenConfirm") /\ Has(Ev.args, "chan")) =>
+  (PStep /\ Txn(Ev, "ChanOpenConfirm") /\ Has(Ev.args, "chan") /\ Ev.args.pport = "provider") =>
     LET o == ConnOwner(p, Ev.args.conn) IN
     /\ OkTx(Ev) => ( /\ o # "none" /\ p.cons[o].chan = ""
                      /\ p'.cons[o].chan = Ev.args.chan /\ p'.ch2c[Ev.args.chan] = o
